@@ -55,6 +55,12 @@ def scrubToJson (sf : Scrub) : Json :=
   jarr (sf.map (fun (path, types) => obj [("path", strArr path),
     ("types", jarr (types.map (fun (t, fs) => obj [("type", t), ("fields", strArr fs)])))]))
 
+/-- deep canonical form: object keys sorted at every level -/
+partial def canonJ : J → J
+  | .obj kvs => .obj (Spec.sortKVs (kvs.map (fun (k, v) => (k, canonJ v))))
+  | .arr xs => .arr (xs.map canonJ)
+  | j => j
+
 def faultToJson : Fault → Json
   | .err m => obj [("fault", "err"), ("msg", m)]
   | .panic w => obj [("fault", "panic"), ("msg", w)]
@@ -92,6 +98,35 @@ def handle : Handler
           ("errors", strArr r.errors),
           ("calls", jarr (r.calls.map (fun cl => obj [("url", cl.url), ("batch", jarr (cl.batch.map requestToJson))])))]
       | .error f => faultToJson f)
+  | "core.gateway.perm", j =>
+    -- the model under several orders of the Go maps it ranges over (routing table, scrub table)
+    let op := parseOp ((getObj? j "operation").getD .null)
+    let c := parseCtx j op
+    let svcs : List Svc := (getArr j "services").map (fun s => ⟨getStr s "url", parseSchema ((getObj? s "schema").getD .null)⟩)
+    let data := parseData ((getObj? j "data").getD .null)
+    let reqVars : Option (List (String × J)) := match getObj? j "variables" with
+      | some (.obj kvs) => some (kvs.toList.map (fun (k, v) => (k, toJ v)))
+      | _ => none
+    let rot {α : Type} (k : Nat) (l : List α) : List α := if l.isEmpty then l else l.drop (k % l.length) ++ l.take (k % l.length)
+    let perms : List (Tum → Tum) × List (Scrub → Scrub) :=
+      ([id, List.reverse, rot 1, rot 2],
+       [id, fun sf => (sf.reverse.map (fun (p, ts) => (p, ts.reverse))), fun sf => (rot 1 sf).map (fun (p, ts) => (p, rot 1 ts)),
+        fun sf => (rot 2 sf).map (fun (p, ts) => (p, rot 1 ts))])
+    let outcomes := (perms.1.zip perms.2).map (fun (pt, ps) =>
+      match gateway { c with tum := pt c.tum } {} op reqVars (specDownstream svcs data) ps with
+      | .ok r => some (match r.data with | some kvs => (Spec.renderJ (canonJ (.obj kvs)), r.errors) | none => ("null", r.errors))
+      | .error _ => none)
+    some (match outcomes with
+      | some (d0, e0) :: rest =>
+        if e0.any (fun m => m.startsWith "not-modelled") then obj [("skipped", true)] else
+        let same := rest.all (fun o => match o with | some (d, e) => d == d0 && e == e0 | none => false)
+        -- canonical data of the identity order (full canonicalisation is done by the harness)
+        let d := match gateway c {} op reqVars (specDownstream svcs data) with
+          | .ok r => (match r.data with | some kvs => ofJ (.obj kvs) | none => Json.null)
+          | .error _ => Json.null
+        obj [("deterministic", same), ("data", d), ("errors", strArr e0),
+          ("outcomes", jarr (outcomes.map (fun o => match o with | some (d, e) => obj [("d", d), ("e", strArr e)] | none => Json.str "fault")))]
+      | _ => obj [("fault", "panic")])
   | _, _ => none
 
 end PebblesVerif.Driver.DCore
